@@ -331,6 +331,22 @@ def install(interp):
                         raise PyRaise(ValueError("value not in sequence"))
                     return interp.wrap(z3.IndexOf(obj.t, z3.Unit(tx), 0), TInt)
                 return index
+        if isinstance(obj.ty, TSet):
+            def lift_set(x):
+                if isinstance(x, Sym) and isinstance(x.ty, TSet):
+                    return x.t
+                return interp.symset_of(x).t if not (isinstance(x, (set, frozenset)) and not x) else z3.EmptySet(obj.ty.elem.sort())
+
+            if name == "intersection":
+                return lambda other: Sym(z3.SetIntersect(obj.t, lift_set(other)), obj.ty)
+            if name == "union":
+                return lambda other: Sym(z3.SetUnion(obj.t, lift_set(other)), obj.ty)
+            if name == "difference":
+                return lambda other: Sym(z3.SetDifference(obj.t, lift_set(other)), obj.ty)
+            if name == "issubset":
+                return lambda other: interp.wrap(z3.IsSubset(obj.t, lift_set(other)), TBool)
+            if name == "copy":
+                return lambda: obj
         raise OutsideSubset(f"attribute {name} of {obj!r}")
 
     interp.sym_getattr = sym_getattr
